@@ -364,13 +364,21 @@ impl SeqSpec for LruSpec {
                         }
                     }
                     Err(e) => {
-                        // refused: the model is unchanged; observers verify that nothing changed.  The statement does not
-                        // say that put succeeds; ZV_C17_STRICT_PUT=1 additionally reports refusals below capacity.
-                        if std::env::var_os("ZV_C17_STRICT_PUT").is_some() && st.model.peek(k).is_none() {
-                            let s = st.model.shard_of(k);
-                            if st.model.shards[s].len() < st.model.per_shard_capacity {
-                                return Err(failc("put_refused_below_capacity", "err", format!("put({k},{v}) = Err({e}) while the shard holds {} of {} entries", st.model.shards[s].len(), st.model.per_shard_capacity)));
-                            }
+                        // A cache with room for at least one entry always has a way to store the new value: a free slot, the
+                        // entry of the same key, or the least recently used entry, which "is evicted to make room".  A refusal
+                        // means the eviction the statement describes did not happen (seed C17f: after clear() every put of a
+                        // new key into the full map was refused for good).  ZV_C17_LENIENT_PUT=1 restores the old behaviour
+                        // (model unchanged, observers verify that nothing changed).
+                        let s = st.model.shard_of(k);
+                        if std::env::var_os("ZV_C17_LENIENT_PUT").is_none() && st.model.per_shard_capacity >= 1 {
+                            let class = if st.model.peek(k).is_some() {
+                                "existing_key"
+                            } else if st.model.shards[s].len() < st.model.per_shard_capacity {
+                                "new_key_below_capacity"
+                            } else {
+                                "new_key_at_capacity"
+                            };
+                            return Err(failc("put_refused", class, format!("put({k},{v}) = Err({e}) while the shard holds {} of {} entries", st.model.shards[s].len(), st.model.per_shard_capacity)));
                         }
                     }
                 }
